@@ -1019,6 +1019,124 @@ def gen_C01_ev(rng):
     return ctx.text()
 
 
+def gen_C01_irfull(rng):
+    """identity-reduced relation forests with full-only storage and variables of size >= 3:
+    transitions that keep a variable at a value >= 2 while another one changes (primed
+    singleton nodes at index >= 2), built by a minterm collection, by accumulating single
+    minterms, and by copying through another forest and back -- all must be the same edge"""
+    ctx = Ctx(rng)
+    ctx.emit("init " + rand_ctopts(rng))
+    k = rng.choice([2, 2, 3])
+    d = Domain("D", [rng.choice([3, 4, 5]) for _ in range(k)])
+    ctx.emit(d.decl())
+    ctx.doms.append(d)
+    rg = rng.choice(["bool", "int"])
+    f = Forest("F", d, True, rg, "mt", "ir", "storage=full " + rng.choice(["", "del=pess", "mm=heap"]))
+    g = Forest("G", d, True, rg, "mt", rng.choice(["fr", "qr", "ir"]), rand_opts(rng))
+    ctx.emit(f.decl())
+    ctx.emit(g.decl())
+    ctx.forests = [f, g]
+    for rnd in range(rng.randint(1, 3)):
+        mts = []
+        for _ in range(rng.randint(1, 4)):
+            pos = []
+            moved = rng.randrange(k)
+            for v in range(k):
+                sz = d.sizes[v]
+                if v == moved:
+                    a = rng.randrange(sz)
+                    pos += [str(a), str(rng.choice([x for x in range(sz) if x != a]))]
+                else:
+                    keep = rng.randrange(2, sz) if rng.random() < 0.8 else rng.randrange(sz)
+                    pos += [str(keep), str(keep)]
+            val = "1" if rg == "bool" else str(rng.choice([1, 2, 3, 5]))
+            mts.append((pos, val))
+        A = "A%d" % rnd
+        parts = ["coll", A, "F", "max", "0"]
+        for pos, v in mts:
+            parts += [";"] + pos + ["=>", v]
+        ctx.emit(" ".join(parts))
+        ctx.edges[A] = f
+        # accumulate single minterms
+        acc = None
+        for i, (pos, v) in enumerate(mts):
+            m = "m%d_%d" % (rnd, i)
+            ctx.emit("minterm %s F 0 %s : %s" % (m, v, " ".join(pos)))
+            ctx.edges[m] = f
+            if acc is None:
+                acc = m
+            else:
+                n = "c%d_%d" % (rnd, i)
+                ctx.emit("apply %s F %s %s %s" % (n, "union" if rg == "bool" else "max", acc, m))
+                ctx.edges[n] = f
+                acc = n
+        ctx.emit("eq %s %s" % (A, acc))
+        G = "g%d" % rnd
+        H = "h%d" % rnd
+        ctx.emit("unary %s G copy %s" % (G, A))
+        ctx.edges[G] = g
+        ctx.emit("unary %s F copy %s" % (H, G))
+        ctx.edges[H] = f
+        ctx.emit("eq %s %s" % (A, H))
+        ctx.emit("audit F")
+    return ctx.text()
+
+
+def gen_C02_reorder(rng):
+    """reduction rule after a reordering that exchanges variables of DIFFERENT sizes:
+    functions with many unconstrained variables are built in the reordered fully-reduced
+    forest (redundant nodes must still be eliminated, non-redundant ones kept: the size of
+    a level is the size of the variable that sits there now)"""
+    ctx = Ctx(rng)
+    ctx.emit("init " + rand_ctopts(rng))
+    k = rng.choice([3, 3, 4])
+    while True:
+        sizes = [rng.choice([2, 3, 4]) for _ in range(k)]
+        if len(set(sizes)) > 1:
+            break
+    d = Domain("D", sizes)
+    ctx.emit(d.decl())
+    ctx.doms.append(d)
+    rg = rng.choice(["bool", "int"])
+    f = Forest("F", d, False, rg, "mt", rng.choice(["fr", "fr", "qr"]),
+               rand_opts(rng) + " reorder=" + rng.choice(REORDERS) + " swap=" + rng.choice(["var", "level"]))
+    ctx.emit(f.decl())
+    ctx.forests = [f]
+    for _ in range(rng.randint(1, 3)):
+        gen_coll(ctx, f, nmax=4)
+    for rnd in range(rng.randint(1, 3)):
+        while True:
+            p = list(range(1, k + 1))
+            rng.shuffle(p)
+            # positions whose variable changed size
+            if any(sizes[p[i] - 1] != sizes[i] for i in range(k)):
+                break
+        ctx.emit("reorder F %s" % " ".join(map(str, p)))
+        ctx.emit("order F")
+        for e in list(ctx.edges):
+            ctx.emit("show %s" % e)
+        # new functions in the reordered forest: mostly don't-care positions.  Positions are
+        # given by LEVEL, and level i now holds variable p[i-1]
+        lsz = [sizes[v - 1] for v in p]
+        for _ in range(rng.randint(2, 4)):
+            nm = ctx.fresh()
+            parts = ["coll", nm, "F", "max", "0"]
+            for _ in range(rng.choice([1, 2, 3])):
+                pdc = rng.choice([0.5, 0.7, 0.9])
+                pos = [("x" if rng.random() < pdc else str(rng.randrange(z))) for z in lsz]
+                parts += [";"] + pos + ["=>", "1" if rg == "bool" else str(rng.choice([1, 2, 3]))]
+            ctx.emit(" ".join(parts))
+            ctx.edges[nm] = f
+        names = list(ctx.edges)
+        for _ in range(rng.randint(1, 3)):
+            a, b = rng.choice(names), rng.choice(names)
+            n = ctx.fresh()
+            ctx.emit("apply %s F %s %s %s" % (n, rng.choice(SETOPS) if rg == "bool" else rng.choice(["plus", "max", "min"]), a, b))
+            ctx.edges[n] = f
+        ctx.emit("audit F")
+    return ctx.text()
+
+
 def gen_C01(rng):
     """the same function along several construction paths; all must be =="""
     ctx = Ctx(rng)
@@ -2685,6 +2803,65 @@ def gen_C20_skip(rng):
             res.append(n)
         m = ctx.fresh("m")
         ctx.emit("apply %s S %s %s %s" % (m, rng.choice(["reach_nofs", "reach_fs", "reach_sat"]), s, u))
+        for x in res:
+            ctx.emit("eq %s %s" % (x, m))
+    return ctx.text()
+
+
+def gen_C20_gap(rng):
+    """saturation by events where a fired result is a node far below its parent (the
+    middle variables are unconstrained in a fully-reduced set forest): among the skipped
+    levels the lowest has no event of its own, a higher one has an event that moves a low
+    variable on -- the events of ALL skipped levels have to be fired on the result"""
+    ctx = Ctx(rng)
+    ctx.emit("init " + rand_ctopts(rng))
+    k = rng.choice([4, 4, 5])
+    sizes = [3] + [2] * (k - 1)
+    d = Domain("D", sizes)
+    ctx.emit(d.decl())
+    fs = Forest("S", d, False, "bool", "mt", rng.choice(["fr", "fr", "fr", "qr"]), rand_opts(rng))
+    fm = Forest("M", d, True, "bool", "mt", "ir", rand_opts(rng))
+    ctx.emit(fs.decl())
+    ctx.emit(fm.decl())
+    for rnd in range(rng.randint(1, 2)):
+        s = "s%d" % rnd
+        # initial set: bottom and top variable fixed, the middle ones free
+        pos = ["0"] + ["x"] * (k - 2) + ["0"]
+        ctx.emit("coll %s S max 0 ; %s => 1" % (s, " ".join(pos)))
+        gap = rng.randint(2, k - 2)                 # no event rooted at this level
+        high = rng.randint(gap + 1, k - 1)          # an event rooted here moves x1 on
+        evs = []
+
+        def event(top, x1from, x1to):
+            name = "e%d_%d" % (rnd, len(evs))
+            pos = [str(x1from), str(x1to)]
+            for v in range(2, k + 1):
+                if v == top:
+                    pos += ["0", "1"]
+                else:
+                    pos += ["x", "="]
+            ctx.emit("coll %s M max 0 ; %s => 1" % (name, " ".join(pos)))
+            evs.append(name)
+
+        event(k, 0, 1)                 # the top event fires first and produces the skipping node
+        event(high, 1, 2)
+        for v in range(2, k):
+            if v not in (gap, high) and rng.random() < 0.4:
+                event(v, rng.randrange(3), rng.randrange(3))
+        rng.shuffle(evs)
+        u = evs[0]
+        for i, e in enumerate(evs[1:]):
+            n = "u%d_%d" % (rnd, i)
+            ctx.emit("apply %s M union %s %s" % (n, u, e))
+            u = n
+        res = []
+        for _ in range(rng.randint(1, 3)):
+            n = ctx.fresh("r")
+            ctx.emit("satpre %s S %s %s %s %s" % (n, rng.choice(["events", "levels"]),
+                                                  rng.choice(["only", "sub", "suball", "mono"]), s, " ".join(evs)))
+            res.append(n)
+        m = ctx.fresh("m")
+        ctx.emit("apply %s S %s %s %s" % (m, rng.choice(["reach_nofs", "reach_fs"]), s, u))
         for x in res:
             ctx.emit("eq %s %s" % (x, m))
     return ctx.text()
